@@ -189,6 +189,9 @@ func (e *Engine) Load() error {
 			if ls.splitFn != "" {
 				ls.splitSSA = sp.Func(ls.splitFn)
 			}
+			for _, n := range ls.stepFns {
+				ls.stepSSA = append(ls.stepSSA, sp.Func(n))
+			}
 			ls.oldSSA = map[string]*ssa.Function{}
 			for _, n := range ls.oldFns {
 				ls.oldSSA[n] = sp.Func(n)
